@@ -1,5 +1,6 @@
 import OVM.IO.Ovmb.FramingLemmas
 import OVM.IO.Ovmb.RoundTripExample
+import OVM.IO.Ovmb.RoundTripPermitted
 /-
   C18 — OVMB detects truncation, framing corruption and stream failures.
 
@@ -16,7 +17,7 @@ import OVM.IO.Ovmb.RoundTripExample
   announces the full size and stops delivering at `p` is read successfully.  The generic form
   `framed_strict_prefix_rejected` covers every byte string `48-byte header ++ well-framed chunks` in which only
   the last chunk is an EOF chunk — whatever the header and the payloads contain (so also every alternative
-  layout).  Lemmas: OVM/IO/Ovmb/RoundTripFrame.lean (`readChunk_full`, `readChunk_partial`, `processChunk_ep`,
+  layout: `permitted_prefix_rejected`).  Lemmas: OVM/IO/Ovmb/RoundTripFrame.lean (`readChunk_full`, `readChunk_partial`, `processChunk_ep`,
   `loop_truncated`, `decodeStream_truncated`), RoundTripTrunc.lean.
 -/
 namespace OVM.Props.C18
@@ -53,6 +54,14 @@ theorem framed_strict_prefix_rejected (cfg : Cfg) (bytes hdr : Bytes) (cs : List
     decode cfg (bytes.take p) ≠ .ok F' ∧ decodeFaulty cfg bytes p ≠ .ok F' :=
   framed_prefix_rejected cfg bytes hdr cs hb hh hfit hne p hp F'
 
+/-- **every strict prefix of every permitted encoding is rejected** (any valid `Layout`: split spans, other
+    widths / offsets, skippable chunks — also a skippable chunk of type EOF with an unknown version), truncated or
+    through a stream that fails at that position, for every reader configuration -/
+theorem permitted_prefix_rejected (cfg : Cfg) (F : File) (L : Layout) (hval : ValidLayout L F = true)
+    (hsize : (encodeWith L F).length < 2 ^ 64) (p : Nat) (hp : p < (encodeWith L F).length) (F' : File) :
+    decode cfg ((encodeWith L F).take p) ≠ .ok F' ∧ decodeFaulty cfg (encodeWith L F) p ≠ .ok F' :=
+  encodeWith_prefix_rejected cfg F L hval hsize p hp F'
+
 /-- only a version-0 chunk of type EOF sets `reached_eof_chunk`: every other chunk, whatever it contains and
     whether it is accepted or not, leaves the flag as it was -/
 theorem only_eof_chunk_sets_eof (cfg : Cfg) (s s' : RState) (h : ChunkHdr) (payload : Bytes)
@@ -66,6 +75,9 @@ example : ∀ p < 440, ∀ F', decode Example.tetCfg ((encode Example.tetFile).t
   strict_prefix_rejected _ _ Example.tetFile_size p (by rw [Example.tetFile_length]; exact hp) F'
 example : ∀ p < 440, ∀ F', decodeFaulty Example.tetCfg (encode Example.tetFile) p ≠ .ok F' := fun p hp F' =>
   read_fault_rejected _ _ Example.tetFile_size p (by rw [Example.tetFile_length]; exact hp) F'
+example : ∀ p < 631, ∀ F', decode Example.tetCfg ((encodeWith Example.altLayout Example.tetFile).take p) ≠ .ok F' :=
+  fun p hp F' => (permitted_prefix_rejected _ _ _ Example.altLayout_valid (by rw [Example.altLayout_length]; decide) p
+    (by rw [Example.altLayout_length]; exact hp) F').1
 example : decode Example.tetCfg (encode Example.tetFile) = .ok Example.tetFile :=
   decode_encode _ _ Example.tetFile_wf Example.tetFile_accepts Example.tetFile_size Example.tetFile_faces
     Example.tetFile_cells
